@@ -581,6 +581,13 @@ class Gen:
                 return ["like", r.choice(["like", "ilike", "startswith", "contains"]), r.choice(scols), False]
         if c < 0.90:
             return ["bin", r.choice(CMP), self.e_int(scope, d - 1), self.e_int(scope, d - 1)]
+        if c < 0.915:
+            plain = [(fk, cm) for fk, cm in scope if fk in TABLE_COLS and cm is TABLE_COLS[fk]]
+            if len(scope) == 1 and plain:
+                fk, cm = plain[0]
+                names = r.sample(sorted(cm), 2)
+                kinds = [r.choice([cm[x] if cm[x] != "bool" else "int", "int", "str", "date", "num"]) for x in names]
+                return ["tuple_in_untyped", names, kinds, r.randint(1, 3), r.random() < 0.2]
         if c < 0.93:
             return ["exists", self.simple_scalar(scope, exists=True)]
         if c < 0.96:
@@ -711,6 +718,12 @@ class Gen:
                     cols.append(["label", self.fresh("ty"), [r.choice(["cast", "cast", "type_coerce"]), r.choice(src), t]])
         spec["cols"] = cols
         where = [self.e_bool(scope, d) for _ in range(r.choice([0, 1, 1, 2]))]
+        if len(scope) == 1 and scope[0][0] in TABLE_COLS and froms[0][0] == "table" and r.random() < 0.15:
+            # tuple IN over untyped column() elements: element types come from the values
+            cm = scope[0][1]
+            names = r.sample(sorted(cm), 2)
+            kinds = [r.choice([cm[x] if cm[x] != "bool" else "int", "int", "str", "date", "num"]) for x in names]
+            where.append(["tuple_in_untyped", names, kinds, r.randint(1, 3), r.random() < 0.2])
         if r.random() < 0.3:
             # explicit bind parameter in value or callable form (anonymous or named)
             ic = self.cols_of(scope, "int")
@@ -1244,6 +1257,13 @@ class Builder:
             return sa.true()
         if h == "false":
             return sa.false()
+        if h == "tuple_in_untyped":
+            # tuple_() of lightweight, *untyped* column() elements against a list of tuples: the element types of
+            # the IN parameter are inferred from the Python values
+            _, names, kinds, n, neg = node
+            tup = sa.tuple_(*[sa.column(x) for x in names])
+            vals = [tuple(self.lit(k) for k in kinds) for _ in range(n)]
+            return tup.not_in(vals) if neg else tup.in_(vals)
         if h == "tuple_in":
             _, es, n = node
             tup = sa.tuple_(*[self.expr(e, scope) for e in es])
@@ -1617,6 +1637,12 @@ def _node_mutations(node, rng, frommap=None, top=True):
         elif h == "in":
             out.append(("inlen", ["in", node[1], node[2] + 1, node[3], node[4]]))
             out.append(("negate", ["in", node[1], node[2], not node[3], node[4]]))
+        elif h == "tuple_in_untyped":
+            kinds = list(node[2])
+            i = rng.randrange(len(kinds))
+            kinds[i] = _other(rng, ["int", "str", "date", "num", "float"], kinds[i])
+            out.append(("tuplekinds", ["tuple_in_untyped", node[1], kinds, node[3], node[4]]))
+            out.append(("inlen", ["tuple_in_untyped", node[1], node[2], node[3] + 1, node[4]]))
         elif h == "between":
             out.append(("symmetric", ["between", node[1], node[2], node[3], not node[4]]))
         elif h == "isnull":
@@ -1888,7 +1914,7 @@ def _node_mutations(node, rng, frommap=None, top=True):
     return out
 
 
-def perturb(spec, rng, n=8, prefer=("params_level_drop", "params_level_name", "typearg", "typewrap", "bindcallable", "param_keys", "bindflag", "for_update_skip_locked", "prefix_dialect", "inlen")):
+def perturb(spec, rng, n=8, prefer=("tuplekinds", "params_level_drop", "params_level_name", "typearg", "typewrap", "bindcallable", "param_keys", "bindflag", "for_update_skip_locked", "prefix_dialect", "inlen")):
     """up to ``n`` (tag, spec') near-copies, each differing from ``spec`` in one attribute;
     rare tags listed in ``prefer`` are taken first when available"""
     cands = []
@@ -2213,7 +2239,30 @@ def chain_ops(env, kind):
         return s.options(env.orm.with_loader_criteria(ent, ent.id != v.next("int")))
 
     comp = [(n, f) for n, f in sel if n in ("order_by", "limit", "offset", "fetch", "slice", "execution_options", "params",
-                                             "add_cte", "wrap_subquery", "wrap_cte", "order_by_none", "with_for_update", "fetch_oracle_approx")]
+                                             "add_cte", "wrap_subquery", "wrap_cte", "order_by_none", "with_for_update", "fetch_oracle_approx",
+                                             "set_label_style", "wrap_exists", "group_by")]
+
+    @op(comp, "set_label_style")
+    def _(s, rng, v):
+        return s.set_label_style(rng.choice([sa.LABEL_STYLE_NONE, sa.LABEL_STYLE_TABLENAME_PLUS_COL, sa.LABEL_STYLE_DISAMBIGUATE_ONLY]))
+
+    @op(comp, "wrap_scalar_subquery")
+    def _(s, rng, v):
+        return sa.select(T["a"].c.id, s.scalar_subquery().label("ssq")).where(T["a"].c.id > v.next("int"))
+
+    @op(comp, "wrap_alias")
+    def _(s, rng, v):
+        return sa.select(s.alias("cal%d" % rng.randint(1, 3)))
+
+    @op(comp, "wrap_in_subquery")
+    def _(s, rng, v):
+        return sa.select(T["a"].c.id).where(T["a"].c.id.in_(s))
+
+    @op(comp, "nest_in_compound")
+    def _(s, rng, v):
+        n = len(s.selected_columns)
+        other = sa.select(*[sa.literal(v.next("int")) for _ in range(n)])
+        return getattr(sa, rng.choice(["union", "union_all", "except_", "intersect"]))(s, other)
 
     def dml_ops(which):
         lst = []
